@@ -80,19 +80,29 @@ pub fn workload_scenario(r: &mut Report, seed: u64) {
     let net = build_net(&w, 2 + rng.usize(5), 0, IpPlan::Public, false, &mut rng);
     let x = w.spawn(if rng.bool() { NodeSpec::server(Ipv4Addr::new(81, 0, 0, 1), &[net.boot]) } else { NodeSpec::client(Ipv4Addr::new(81, 0, 0, 1), &[net.boot]) }).expect("x");
     w.block_on(x.adht.bootstrapped(), 60 * SEC);
+    // one value is already stored on the network: lookups of its target get value-carrying answers from
+    // several nodes (a reader such as get_immutable hangs up after the first one, while puts of the same value
+    // and other readers share the lookup)
+    let v0 = rng.blob(3, 30);
+    let t0 = Id::from(crate::sha1::immutable_target(&v0));
+    let pre_stored = w.block_on(net.nodes[0].adht.put_immutable(&v0), 120 * SEC).map(|x| x.is_ok()).unwrap_or(false);
+    if pre_stored {
+        r.count("workloads_with_a_value_already_stored_on_the_network");
+    }
     // loss
-    let loss = *rng.pick(&[0u64, 5, 15, 30]);
+    let loss = *rng.pick(&[0u64, 0, 5, 15, 30]);
     let mut frng = rng.fork(3);
     w.set_fault(Some(Box::new(move |_info: &SendInfo| if frng.below(100) < loss { Some(vec![]) } else { None })));
     let signer = SigningKey::from_bytes(&rng.array::<32>());
-    let targets: Vec<Id> = (0..3).map(|_| Id::from(rng.array::<20>())).collect();
+    let mut targets: Vec<Id> = (0..3).map(|_| Id::from(rng.array::<20>())).collect();
+    targets[0] = t0;
     let n_calls = 8 + rng.usize(25);
     let mut tasks: Vec<Task<()>> = vec![];
     for i in 0..n_calls {
         let a = x.adht.clone();
         let t = *rng.pick(&targets);
         let s2 = signer.clone();
-        let val = rng.blob(3, 30);
+        let val = if rng.bool() { v0.clone() } else { rng.blob(3, 30) };
         let seq = i as i64;
         let now = w.now();
         tasks.push(match rng.usize(10) {
